@@ -197,14 +197,3 @@ fn c11_quantile_ci_max_size_capacity_panics() {
     let _ = ci_max_size::<u8, _, 4>(Confidence::TwoSided(0.5), &data, 0.5);
     kani::cover!(true, "REACH_AFTER_REJECT");
 }
-
-// ---- frame condition (C03 / C10): quantile::Stats::ci writes to nothing but its own locals (see kani/contracts.json)
-#[kani::proof_for_contract(Stats::ci)]
-#[kani::stub(crate::stats::z_value, z_two)]
-fn c10t_frame_quantile_stats_ci_writes_no_hidden_state() {
-    let s = Stats::new(kani::any());
-    let q: f64 = kani::any();
-    let r = s.ci(crate::stats::verif_kani::any_confidence(), q);
-    kani::cover!(r.is_ok());
-    kani::cover!(r.is_err());
-}
